@@ -27,7 +27,9 @@ RULE = (
     "model: dry run => no request and no socket attempt; exactly one POST per expected hop to the expected URL with "
     "Content-Type application/x-ofx, an Accept admitting it, the configured User-Agent, a body equal (as a parsed story, modulo "
     "UUIDs / DTCLIENT) to the dry-run serialisation; profile hops carry only the anonymous placeholder; the Cookie header equals "
-    "the reference cookie jar of that client and host.  non-trivial = history with >=2 requests on one client after a cookie "
+    "the reference cookie jar of that client and host.  One institution's URLs carry percent-escapes and sub-delimiters (sent exactly "
+    "as configured / advertised); profiles also advertise message sets the client has no use for, at other URLs; a second rule "
+    "calls request_profile(url=X) and expects the one anonymous POST at X.  non-trivial = history with >=2 requests on one client after a cookie "
     "was set, or a service URL different from the configured one, or >=2 clients; distinct by hash of the operation history"
 )
 ASSUMPTIONS = [
